@@ -94,6 +94,10 @@ func channelSelect(L *LState) int {
 	pos, recv, rok := reflect.Select(cases)
 
 	if L.ctx != nil && pos == L.GetTop() {
+		// the context is done: surface it as the context's error right here, a caller that
+		// returns without executing another instruction (return channel.select(...)) would
+		// otherwise end normally
+		L.RaiseError(L.ctx.Err().Error())
 		return 0
 	}
 
@@ -154,7 +158,12 @@ func channelReceive(L *LState) int {
 			Chan: rch,
 			Send: reflect.ValueOf(nil),
 		}}
-		_, v, ok = reflect.Select(cases)
+		var pos int
+		pos, v, ok = reflect.Select(cases)
+		if pos == 0 {
+			L.RaiseError(L.ctx.Err().Error())
+			return 0
+		}
 	} else {
 		v, ok = rch.Recv()
 	}
@@ -172,8 +181,7 @@ func channelSend(L *LState) int {
 	rch := checkChannel(L, 1)
 	v := checkGoroutineSafe(L, 2)
 	if L.ctx != nil {
-		// like receive and select: give up waiting when the context is done; the
-		// VM raises the context's error before the next instruction.
+		// like receive and select: give up waiting when the context is done
 		cases := []reflect.SelectCase{{
 			Dir:  reflect.SelectRecv,
 			Chan: reflect.ValueOf(L.ctx.Done()),
@@ -183,7 +191,10 @@ func channelSend(L *LState) int {
 			Chan: rch,
 			Send: reflect.ValueOf(v),
 		}}
-		reflect.Select(cases)
+		if pos, _, _ := reflect.Select(cases); pos == 0 {
+			L.RaiseError(L.ctx.Err().Error())
+			return 0
+		}
 	} else {
 		rch.Send(reflect.ValueOf(v))
 	}
